@@ -198,9 +198,28 @@ static void cont_add(spif_obj_t c, int k, long key, long how)
 
 static spif_obj_t make(int k, const op_t *o)
 {
-    long variant = o->a[2];
+    long variant = o->a[2], src = o->na > 3 ? o->a[3] : 0;
     char *t = cstr(o);
     spif_obj_t r = NULL;
+    if (src > 0 && (k == K_STR || k == K_USTR || k == K_MBUFF)) {
+        /* made from a descriptor (1 streaming, 2 regular file) or a stdio stream (3 not seekable, 4 seekable), possibly positioned
+           at its end, possibly failing: a constructor that gives up must not keep anything (it has nothing to hand to the caller) */
+        size_t len = o->slen, pos = o->na > 4 && o->a[4] > 0 ? (size_t)o->a[4] : 0;
+        if (pos > len) pos = len;
+        simfd_hard_error = 0; simfd_eagain = 0;
+        if (src <= 2) {
+            int fd = simfd_new_src(0, o->s, len, src == 2, 0, src == 2 ? pos : 0);
+            r = k == K_STR ? SPIF_OBJ(spif_str_new_from_fd(fd)) : k == K_USTR ? SPIF_OBJ(spif_ustr_new_from_fd(fd)) : SPIF_OBJ(spif_mbuff_new_from_fd(fd));
+            simfd_close_harness(0, fd);
+        } else {
+            FILE *fp = simfd_cookie_stream(o->s, len, src == 4, src == 4 ? pos : 0);
+            r = k == K_STR ? SPIF_OBJ(spif_str_new_from_fp(fp)) : k == K_USTR ? SPIF_OBJ(spif_ustr_new_from_fp(fp)) : SPIF_OBJ(spif_mbuff_new_from_fp(fp));
+            fclose(fp);
+        }
+        probe_hit(r ? "stream_constructor_ok" : "stream_constructor_gave_up");
+        sim_free(t);
+        return r;
+    }
     switch (k) {
     case K_STR:
         if (variant % 4 == 0) r = SPIF_OBJ(spif_str_new());
@@ -426,7 +445,7 @@ static void exec_common(const plan_t *p)
             int kind = (int)o->a[1];
             if (obj[s] || kind < 0 || kind >= K_NKINDS) continue;
             obj[s] = make(kind, o); okind[s] = kind;
-            if (!obj[s]) FAIL("MISMATCH", "constructor", kind, "constructor returned NULL");
+            if (!obj[s] && !(o->na > 3 && o->a[3] > 0)) FAIL("MISMATCH", "constructor", kind, "constructor returned NULL");     /* (a stream constructor may give up: C01/C07 judge when) */
         } else if (!obj[s]) continue;
         else if (!strcmp(k, "mut")) mutate(s, o);
         else if (!strcmp(k, "query")) query(s, o);
@@ -515,8 +534,21 @@ static void gen_common(plan_t *p, rng_t *r, int c05)
             /* comparison laws need several objects of one class: bias kinds towards a per-run focus */
             int kind = rng_chance(r, 1, 2) ? focus : (int)rng_below(r, K_NKINDS);
             const char *t = texts[rng_below(r, sizeof(texts) / sizeof(texts[0]))];
-            o = plan_op(p, 0, "mk", 3, (long)s, (long)kind, (long)rng_below(r, 1000));
-            op_str(o, t, strlen(t));
+            if ((kind == K_STR || kind == K_USTR || kind == K_MBUFF) && rng_chance(r, 1, 4)) {
+                /* stream constructors: empty sources, sources positioned at their end, short reads, EINTR, hard errors */
+                static const int outs[] = { FO_SHORT, FO_SHORT, FO_EINTR, FO_EINTR, FO_EIO, FO_FULL };
+                long src = rng_range(r, 1, 4), big = rng_chance(r, 1, 5);
+                size_t len = rng_chance(r, 1, 5) ? 0 : big ? (size_t)rng_range(r, 4090, 9000) : strlen(t);
+                long pos = rng_chance(r, 1, 3) ? (long)len : rng_chance(r, 1, 3) ? (long)rng_below(r, (uint32_t)len + 1) : 0;
+                int nf = rng_chance(r, 1, 2) ? rng_range(r, 1, 3) : 0;
+                o = plan_op(p, 0, "mk", 5, (long)s, (long)kind, (long)rng_below(r, 1000), src, pos);
+                if (big) { char *b = malloc(len + 1); for (size_t q = 0; q < len; q++) b[q] = (char)('a' + q % 23); op_str(o, b, len); free(b); }
+                else op_str(o, t, len);
+                for (int q = 0; q < nf; q++) { int out = outs[rng_below(r, 6)]; op_fault(o, FAULT(FC_READ, out, out == FO_SHORT ? rng_range(r, 1, 100) : 0)); }
+            } else {
+                o = plan_op(p, 0, "mk", 3, (long)s, (long)kind, (long)rng_below(r, 1000));
+                op_str(o, t, strlen(t));
+            }
             ex[s] = 1; kinds[s] = kind;
             continue;
         }
